@@ -76,8 +76,82 @@ fn pool() -> BoxedStrategy<Vec<u8>> {
     proptest::collection::vec(0u8..=127, 1..=6).boxed()
 }
 
+/// many distinct keys pressed at once (up to the 32 outstanding note-ons the statement allows), then released in a
+/// generated order interleaved with the ordinary ops
+fn chord_prefix() -> BoxedStrategy<Vec<MidiOp>> {
+    prop_oneof![
+        5 => Just(vec![]),
+        // the same key struck again and again without a release (duplicates up to and beyond the 32-entry capacity)
+        1 => (0u8..=127, 2usize..=40, any::<bool>()).prop_map(|(n, times, rs)| {
+            (0..times).map(|i| MidiOp::Chan { kind: 1, own: true, other: 0, d1: n, d2: 1 + (i as u8 % 100), rs }).collect()
+        }),
+        1 => (prop_oneof![2 => 8usize..=32, 1 => 30usize..=32].prop_flat_map(|k| proptest::sample::subsequence((0u8..=127).collect::<Vec<u8>>(), k)).prop_shuffle(), any::<bool>()).prop_map(|(notes, rs)| {
+            notes.into_iter().map(|n| MidiOp::Chan { kind: 1, own: true, other: 0, d1: n, d2: 1 + n % 100, rs }).collect()
+        }),
+    ]
+    .boxed()
+}
+
+/// counts at which small wrapping counters roll over
+fn boundary_count() -> BoxedStrategy<u16> {
+    prop_oneof![
+        3 => proptest::sample::select(vec![254u16, 255, 256, 257, 511, 512, 513, 127, 128, 129, 33, 32, 31]),
+        1 => 1u16..600,
+    ]
+    .boxed()
+}
+
+/// motif: a routed controller is set, a long burst of one message follows (reset-all-controllers most of the time),
+/// then the identical controller message is sent again (caches / "unchanged value" shortcuts must not go stale)
+fn cc_burst_motif() -> BoxedStrategy<Vec<MidiOp>> {
+    (
+        proptest::sample::select(vec![1u8, 7, 71, 74, 5, 65, 64]),
+        0u8..=127,
+        prop_oneof![4 => Just((3u8, 121u8, 0u8)), 1 => Just((3u8, 123u8, 0u8)), 1 => (0u8..=127).prop_map(|n| (1u8, n, 100u8)), 1 => (0u8..=127, 0u8..=127).prop_map(|(c, v)| (3u8, c, v))],
+        boundary_count(),
+    )
+        .prop_map(|(c, v, (kind, d1, d2), n)| {
+            vec![
+                MidiOp::Chan { kind: 3, own: true, other: 0, d1: c, d2: v, rs: false },
+                MidiOp::Burst { kind, d1, d2, n },
+                MidiOp::Chan { kind: 3, own: true, other: 0, d1: c, d2: v, rs: false },
+            ]
+        })
+        .boxed()
+}
+
 /// weights: notes, cc, foreign, junk, modes, polls
 fn midi_case(w: [u32; 6], max_ops: usize) -> BoxedStrategy<MidiCase> {
+    midi_case_plain(w, max_ops)
+        .prop_flat_map(|c| (Just(c), prop_oneof![6 => chord_prefix(), 1 => cc_burst_motif()], any::<proptest::sample::Index>()))
+        .prop_map(|(mut c, chord, at)| {
+            let is_chord = chord.iter().all(|o| matches!(o, MidiOp::Chan { kind: 1, .. }));
+            if !chord.is_empty() && !is_chord {
+                let pos = at.index(c.ops.len() + 1);
+                let tail = c.ops.split_off(pos);
+                c.ops.extend(chord);
+                c.ops.extend(tail);
+            } else if !chord.is_empty() {
+                // pool notes of the ordinary ops now collide with the chord: re-target some ops at chord notes
+                let notes: Vec<u8> = chord.iter().filter_map(|o| if let MidiOp::Chan { d1, .. } = o { Some(*d1) } else { None }).collect();
+                for (i, op) in c.ops.iter_mut().enumerate() {
+                    if let MidiOp::Chan { kind, own: true, d1, .. } = op {
+                        if *kind <= 1 && i % 2 == 0 {
+                            *d1 = notes[(*d1 as usize + i) % notes.len()];
+                        }
+                    }
+                }
+                let pos = at.index(c.ops.len() + 1);
+                let tail = c.ops.split_off(pos);
+                c.ops.extend(chord);
+                c.ops.extend(tail);
+            }
+            c
+        })
+        .boxed()
+}
+
+fn midi_case_plain(w: [u32; 6], max_ops: usize) -> BoxedStrategy<MidiCase> {
     (prop_oneof![4 => 0u8..16, 1 => 16u8..=255], pool())
         .prop_flat_map(move |(ch, pool)| {
             let op = prop_oneof![
